@@ -354,8 +354,9 @@ def job_history(cfg):
     c = new_context()
     facade.install()
     split = cfg["split"]
-    key = f"history field ({split}, solver History)"
-    res.functions |= {"Simulations.PhaseField.__Calc_psiPlus_e_pg", "Simulations.PhaseField.Save_Iter", "Simulations.PhaseField.Set_Iter", "Simulations.PhaseField._Calc_Epsilon_e_pg"}
+    reads = cfg.get("reads", False)
+    key = f"history field ({split}, solver History)" + (", results read between the evaluation of the driving energy and Save_Iter" if reads else "")
+    res.functions |= ({"Simulations.PhaseField.Result"} if reads else set()) | {"Simulations.PhaseField.__Calc_psiPlus_e_pg", "Simulations.PhaseField.Save_Iter", "Simulations.PhaseField.Set_Iter", "Simulations.PhaseField._Calc_Epsilon_e_pg"}
     X = np.array([[0, 0, 0], [1, 0, 0], [0.25, 1, 0]], dtype=float)
     mesh = simlib.mesh_from_arrays([("TRI3", [[0, 1, 2]]), ("SEG2", [[0, 1], [1, 2], [2, 0]])], X)
     mat = make_material("iso-strain")
@@ -374,7 +375,7 @@ def job_history(cfg):
     calc = simu._PhaseField__Calc_psiPlus_e_pg
 
     def body(k):
-        H, P = [], []
+        H, P, R = [], [], []
         with facade.symbolic():
             s2 = Simulations.PhaseField(mesh, pfm, verbosity=False)
             calc2 = s2._PhaseField__Calc_psiPlus_e_pg
@@ -385,8 +386,13 @@ def job_history(cfg):
                 eps = s2._Calc_Epsilon_e_pg(u.copy(), g, "mass")
                 P.append(np.asarray(pfm.Calc_psi_e_pg(eps)[0], dtype=object).copy())
                 H.append(np.asarray(calc2(g), dtype=object).copy())
+                if reads:
+                    # what a user (or an export) does between Solve() and Save_Iter(): element results are requested
+                    R.append(np.asarray(s2.Result("psiP", nodeValues=False), dtype=object).reshape(-1).copy())
+                    for nm in ("Stress", "Strain", "damage"):
+                        s2.Result(nm, nodeValues=False)
                 s2.Save_Iter()
-        return {"H": H, "P": P}
+        return {"H": H, "P": P, "R": R}
 
     inputs = [x for u in U for x in (u[2], u[4], u[5])]
     regions, status = paths.explore(body, inputs, max_regions=cfg.get("max_regions", 40), label=f"{key} coverage", timeout_ms=60000)
@@ -397,13 +403,19 @@ def job_history(cfg):
         s2 = Simulations.PhaseField(mesh, pfm, verbosity=False)
         calc2 = s2._PhaseField__Calc_psiPlus_e_pg
         s2._PhaseField__Niter, s2._PhaseField__timeIter, s2._PhaseField__convIter = 0, 0.0, 0.0
-        Hs, Ps = [], []
+        Hs, Ps, Rs = [], [], []
         for u in U:
             uf = np.array([float(as_sym(x).eval(full)) for x in u])
             s2._Set_solutions(s2.ProblemTypes.elastic, uf)
             Ps.append(np.asarray(pfm.Calc_psi_e_pg(s2._Calc_Epsilon_e_pg(uf, g, "mass"))[0]).copy())
             Hs.append(np.asarray(calc2(g)).copy())
+            if reads:
+                Rs.append(np.asarray(s2.Result("psiP", nodeValues=False), dtype=float).reshape(-1).copy())
+                for nm in ("Stress", "Strain", "damage"):
+                    s2.Result(nm, nodeValues=False)
             s2.Save_Iter()
+        if reads and any(np.abs(Rs[k] - Hs[k].mean(1)).max() > 1e-9 * max(1.0, np.abs(Hs[k]).max()) for k in range(3)):
+            return True, {"Result_psiP_per_step": [r.tolist() for r in Rs], "mean_driving_energy_per_step": [h.mean(1).tolist() for h in Hs]}
         bad = any((Hs[k] < Hs[k - 1] - 1e-12).any() for k in (1, 2)) or any((Hs[k] < Ps[k] - 1e-12).any() for k in range(3))
         return bool(bad), {"history_per_step": [h.tolist() for h in Hs], "psi_plus_per_step": [p.tolist() for p in Ps]}
 
@@ -433,6 +445,19 @@ def job_history(cfg):
             if worst:
                 break
         res.record(f"{key} region {r.index}: the history field never decreases and dominates psi+ over three steps (all Gauss points)", worst or Outcome("held", how="exact"), replay, key=f"history {split}: monotone")
+        if reads:
+            worst = None
+            for k in range(3):
+                Hk = H[k]
+                for e in range(Hk.shape[0]):
+                    mean = sum(as_sym(Hk[e, p_]) for p_ in range(Hk.shape[1])) / Hk.shape[1]
+                    o = prove_abs_le(as_sym(r.result["R"][k][e]) - mean, 0, r.pcs, f"{key} psiP")
+                    if o.status != "held":
+                        worst = o
+                        break
+                if worst:
+                    break
+            res.record(f"{key} region {r.index}: Result('psiP') is the element mean of the driving energy (history included) at every step", worst or Outcome("held", how="normal-form"), replay, key=f"history {split}: Result('psiP')")
     res.twin(f"{key} twin", len(regions) >= 2)
     res.stubs |= facade.USED_STUBS
     return res
@@ -533,6 +558,7 @@ def main():
     # the history update (elementwise maximum with the stored field) does not depend on the split: the polynomial psi+ of Bourdin keeps the
     # region enumeration of three successive states within reach (Amor / Miehe: more than 40 regions, cover not closed in the budget)
     configs.append({"kind": "history", "split": "Bourdin"})
+    configs.append({"kind": "history", "split": "Bourdin", "reads": True})
     configs.append({"kind": "history_mixed"})
     results = harness.run_jobs(job, configs)
     harness.finish(
